@@ -273,9 +273,14 @@ func (a *Application) translationHandler(trans translator.RequestTranslator) htt
 			pr.requestLogger.Warn("No endpoints available for model",
 				"model", pr.model,
 				"translator", trans.Name())
+			// a routing rejection carries its own status (404 model not found, 503 only on unhealthy endpoints)
+			status := http.StatusNotFound
+			if decision := routingRejection(pr, endpoints); decision != nil {
+				status = decision.StatusCode
+			}
 			a.writeTranslatorError(w, trans, pr,
 				fmt.Errorf("no healthy endpoints available for model: %s", pr.model),
-				http.StatusNotFound)
+				status)
 			a.recordTranslatorMetrics(trans, pr, constants.TranslatorModeTranslation, constants.FallbackReasonNoCompatibleEndpoints)
 			return
 		}
